@@ -32,9 +32,8 @@ def make_contents(seed):
     """the real texts behind the labels, and what the API produces for them."""
     import kernpy as kp
     r = random.Random(seed)
-    for attempt in range(50):
-        docs_ = []
-        for k in range(2):
+    def one_doc():
+        for _ in range(400):
             g = gen.DocGen(random.Random(r.random()), chords='core', max_rows=12, max_spines=3, first_kern=1.0, hidden_bars=False,
                            types=['**kern', '**text'], fcoms=True, pre_comments=True)
             lines, types = g.document()
@@ -46,11 +45,12 @@ def make_contents(seed):
             for e in lines:
                 if e['ev'] == 'row' and len(e['cells']) == len(types) and e['cells'][tcol]['k'] in ('text', 'null') and weird:
                     e['cells'][tcol] = gen.lit('text', weird.pop(0))
-            if len(weird) > 3:
-                continue
-            docs_.append(lines)
-        if len(docs_) < 2:
-            continue
+            if len(weird) <= 3:
+                return lines
+        raise MachineryError('could not generate a document with a lyrics spine')
+
+    for attempt in range(200):
+        docs_ = [one_doc(), one_doc()]
         k1 = session.render(docs_[0], eol='\r\n', final_eol=False)          # CRLF, no final newline
         k2 = session.render(docs_[1], eol='\n', final_eol=True)
         bad_lines = [dict(e) for e in docs_[0]]
